@@ -10,7 +10,7 @@ from ..index import AnalysisError, dotted_chain, norm, unparse, walk_no_nested, 
 from ..serial import Registry
 from ..fieldflow import base_field
 from ..cfg import CFG
-from ..util import calls_in, call_name, where, parent_map, returns_of, enclosing
+from ..util import calls_in, call_name, where, parent_map, returns_of, enclosing, expand_locals
 from .. import props
 
 props.prop(
@@ -116,7 +116,7 @@ def rule_a(ctx, ix):
     generic = [st for st in stores if not isinstance(st.value, ast.Constant)]
     ok = False
     for st in generic:
-        txt = unparse(st.value).replace(' ', '')
+        txt = unparse(expand_locals(do.node, st.value)).replace(' ', '')
         p = do.params[1]
         ok = ('type(%s).__module__' % p in txt and 'type(%s).__name__' % p in txt and
               txt.index('__module__') < txt.index('__name__'))
